@@ -92,6 +92,7 @@ func init() {
 			s3b("", 1500, 150000),
 			s3b("tap=1", 1500, 150000),
 			s3b("tap=1,hold=1", 2500, 250000),
+			s3b("tap=1,hold=1,pure=1", 4000, 400000),
 			{Pkg: "scen/s2", Scen: "feed", Cfg: "", Module: "root", Seams: seamsS2, NoRace: true, Quick: 15000, Thorough: 1000000, ThoroughSecs: 900,
 				Real: []string{"d2 of the root module (update loops, snapshots, host selection; same scenario, import path switched)"}},
 		},
